@@ -160,6 +160,64 @@ let gr_data vgref = match elem 1965 vgref with
       | None -> None)
   | _ -> None
 
+
+(* ---- SD convention helpers (driver glue; the parsers are the specification's) ---- *)
+let ndg_pairs ndg = match elem 720 ndg with CBytes b -> pairs_of_bytes b | _ -> []
+let all_vgroups () =
+  List.filter_map (fun d ->
+    if iz d.dd_tag = 1965 then
+      (match elem 1965 (iz d.dd_ref) with
+       | CBytes b -> (match parse_vg b with Some g -> Some (iz d.dd_ref, g) | None -> None)
+       | _ -> None)
+    else None) (live (ds ()))
+let vg_members g = List.combine (List.map iz g.vg_tags) (List.map iz g.vg_refs)
+let vh_of r = match elem 1962 r with CBytes b -> parse_vh b | _ -> None
+(* the attribute vdata called [name] inside vgroup g *)
+let attr_in_vgroup g name =
+  List.find_map (fun (t, r) ->
+    if t = 1962 then
+      (match vh_of r with
+       | Some v when string_of_zlist v.vh_class = "Attr0.0" && string_of_zlist v.vh_name = name -> Some r
+       | _ -> None)
+    else None) (vg_members g)
+let unhex_str h = if h = "-" then "" else
+  Stdlib.String.init (Stdlib.String.length h / 2) (fun i -> Char.chr (int_of_string ("0x" ^ Stdlib.String.sub h (2 * i) 2)))
+
+let one_extent toks e = match e with
+  | Some [(o, n)] -> Printf.printf "DI %s = 1 %d:%d\n" (Stdlib.String.concat " " toks) (iz o) (iz n)
+  | Some [] -> Printf.printf "DI %s = 0\n" (Stdlib.String.concat " " toks)
+  | _ -> Printf.printf "DI %s = -1\n" (Stdlib.String.concat " " toks)
+
+let do_sdcheck () =
+  List.iter (fun d ->
+    if iz d.dd_tag = 720 then begin
+      let ndg = iz d.dd_ref in
+      let ps = ndg_pairs ndg in
+      let sdd = try Some (List.assoc 701 ps) with Not_found -> None in
+      let sd = try Some (List.assoc 702 ps) with Not_found -> None in
+      match sdd with
+      | None -> Printf.printf "SDC %d nosdd\n" ndg
+      | Some sr ->
+        (match elem 701 sr with
+         | CBytes b -> (match p_sdd b with
+             | Some (dims, (nt_t, nt_r)) ->
+               let bits = match elem (iz nt_t) (iz nt_r) with CBytes [_; _; w; _] -> iz w | _ -> -1 in
+               let dlen = match sd with
+                 | None -> "none"
+                 | Some r -> (match find_dd (ds ()) (z 702) (z r) with
+                     | None -> "none"
+                     | Some dd when iz dd.dd_off = -1 -> "none"
+                     | Some _ -> (match elem 702 r with CBytes c -> string_of_int (List.length c) | COpaque _ -> "opaque" | CErr e -> "err")) in
+               Printf.printf "SDC %d dims=%s bits=%d datalen=%s\n" ndg
+                 (Stdlib.String.concat "," (List.map (fun v -> string_of_int (iz v)) dims)) bits dlen
+             | None -> Printf.printf "SDC %d badsdd\n" ndg)
+         | _ -> Printf.printf "SDC %d badsdd\n" ndg)
+    end) (List.sort cmp_dd (live (ds ())))
+
+let do_orphans () =
+  let o = orphan_blocks ext_file inflate !img (ds ()) in
+  Printf.printf "ORPH %s\n" (if o = [] then "-" else Stdlib.String.concat "," (List.map (fun r -> string_of_int (iz r)) o))
+
 let answer toks exts count =
   let head = String.concat " " toks in
   match exts with
@@ -174,7 +232,8 @@ let do_di toks =
   match toks with
   | [kind; a; b; count; coords] ->
     let a' = int_of_string a and b' = int_of_string b in
-    let coord = if coords = "-" then None else Some (List.map (fun s -> z (int_of_string s)) (String.split_on_char ',' coords)) in
+    let coord = if coords = "-" then None else
+      (try Some (List.map (fun s -> z (int_of_string s)) (String.split_on_char ',' coords)) with _ -> None) in
     let ext t r = data_extents ext_file inflate !img (ds ()) (z t) (z r) coord in
     (match kind with
      | "H" -> answer toks (ext a' b') count
@@ -193,6 +252,57 @@ let do_di toks =
          | Some (t, r) -> (match find_dd (ds ()) (z t) (z r) with
              | None -> answer toks (Some []) count
              | Some _ -> answer toks (ext t r) count))
+     | "OLD" ->
+       (* a = ndg ref (all old-style elements of a data set share it), b = tag of the string element, coords = dim index or - *)
+       (match find_dd (ds ()) (z b') (z a') with
+        | None -> one_extent toks None
+        | Some d ->
+          (match raw_of !img d with
+           | None -> one_extent toks None
+           | Some raw ->
+             if raw = [] then one_extent toks (Some []) else
+             let k = if coords = "-" then 0 else 1 + int_of_string coords in
+             let rec nat_of_int n = if n <= 0 then O else S (nat_of_int (n - 1)) in
+             (match luf_nth (nat_of_int k) raw d.dd_off with
+              | Some (o, n) -> one_extent toks (Some [(o, n)])
+              | None -> one_extent toks None)))
+     | "ATTF" | "ATTS" | "ATTD" ->
+       let vgs = all_vgroups () in
+       let target =
+         if kind = "ATTF" then List.find_opt (fun (_, g) -> string_of_zlist g.vg_class = "CDF0.0") vgs
+         else if kind = "ATTS" then
+           List.find_opt (fun (_, g) -> string_of_zlist g.vg_class = "Var0.0" && List.mem (720, a') (vg_members g)) vgs
+         else
+           (let dn = unhex_str (List.hd (Stdlib.String.split_on_char ':' coords)) in
+            List.find_opt (fun (_, g) -> string_of_zlist g.vg_class = "Var0.0" && string_of_zlist g.vg_name = dn) vgs) in
+       let aname = if kind = "ATTD" then unhex_str (List.nth (Stdlib.String.split_on_char ':' coords) 1) else unhex_str coords in
+       (match target with
+        | None when kind <> "ATTF" -> Printf.printf "DI %s = novg\n" (Stdlib.String.concat " " toks)
+        | None -> one_extent toks None
+        | Some (_, g) ->
+          (match attr_in_vgroup g aname with
+           | None -> one_extent toks (Some [])
+           | Some r -> one_extent toks (data_extents ext_file inflate !img (ds ()) (z 1963) (z r) None)))
+     | "ANNF" | "ANNS" ->
+       (* file labels / descriptions: every element of tag 100 / 101; data labels / descriptions of (720, ndg):
+          elements of tag 104 / 105 whose first four bytes name that tag/ref -- the text follows them *)
+       let ty = if kind = "ANNF" then a' else b' in
+       let tag = [| 100; 101; 104; 105 |].(ty) in
+       let es = List.filter (fun d -> iz d.dd_tag = tag) (ds ()) in
+       let locs = List.filter_map (fun d ->
+         if ty <= 1 then Some (iz d.dd_off, iz d.dd_len)
+         else match raw_of !img d with
+           | Some (b0 :: b1 :: b2 :: b3 :: _) when (iz b0) * 256 + iz b1 = 720 && (iz b2) * 256 + iz b3 = a' ->
+             Some (iz d.dd_off + 4, iz d.dd_len - 4)
+           | _ -> None) es in
+       let locs = List.sort compare locs in
+       let head = Stdlib.String.concat " " toks in
+       if count = "N" then Printf.printf "DI %s = %d\n" head (List.length locs)
+       else begin
+         let got = take (int_of_string count) locs in
+         Printf.printf "DI %s = %d%s\n" head (List.length got)
+           (Stdlib.String.concat "" (List.map (fun (o, n) -> Printf.sprintf " %d:%d" o n) got))
+       end
      | _ -> Printf.printf "DI %s = ?\n" (String.concat " " toks))
   | _ -> Printf.printf "DI ? badquery\n"
 
@@ -297,6 +407,8 @@ let () =
        | "dds" :: _ -> List.iter (fun d -> Printf.printf "D %d %d %d %d\n" (iz d.dd_tag) (iz d.dd_ref) (iz d.dd_off) (iz d.dd_len)) (ds ())
        | "di" :: rest -> do_di rest
        | "reencode" :: _ -> do_reencode ()
+       | "sdcheck" :: _ -> do_sdcheck ()
+       | "orphans" :: _ -> do_orphans ()
        | "dimodel" :: rest -> do_dimodel rest
        | "sddata" :: n :: _ ->
          let n' = int_of_string n in
